@@ -60,6 +60,7 @@ func TestVerifNackGenExec(t *testing.T) {
 
 func vfRunLog(t *testing.T, sc *vfNackScript, out *vfWriter) {
 	t.Helper()
+	out.NewKept().Flush() // (one reset per script in the side trace)
 	logs := map[uint32]*receiveLog{}
 	scratch := make([]uint16, sc.Size)
 	for _, st := range sc.Steps {
@@ -120,6 +121,8 @@ func (g *vfTickGate) hook(name string, obj any) {
 
 func vfRunIcpt(t *testing.T, sc *vfNackScript, out *vfWriter) {
 	t.Helper()
+	kept := out.NewKept()
+	defer kept.Flush()
 	opts := []GeneratorOption{GeneratorSize(sc.Size), GeneratorSkipLastN(sc.Skip), GeneratorInterval(200 * time.Microsecond)}
 	if sc.Max > 0 {
 		opts = append(opts, GeneratorMaxNacksPerPacket(sc.Max))
@@ -156,6 +159,14 @@ func vfRunIcpt(t *testing.T, sc *vfNackScript, out *vfWriter) {
 					nums = append(nums, pair.PacketList()...)
 				}
 				written = append(written, vfM{"s": n.MediaSSRC, "nums": nums})
+				kept.Keep(func() any { // the NACK handed to the RTCP writer, read again later
+					again := []uint16{}
+					for _, pair := range n.Nacks {
+						again = append(again, pair.PacketList()...)
+					}
+
+					return vfM{"s": n.MediaSSRC, "nums": again}
+				})
 			} else {
 				written = append(written, vfM{"s": 0, "nums": []uint16{}, "foreign": true})
 			}
